@@ -14,10 +14,31 @@ import (
 	"go.uber.org/dig"
 )
 
-// InjErr is the unique error a faulted execution returns.
-type InjErr struct{ Fn, Exec int }
+// InjErr is the unique error a faulted execution returns. With fault kind "digerr" it wraps
+// (Unwrap) an error that a DIFFERENT dig container returned for a failed Invoke (missing
+// dependencies): a user function that drives a sub-container and reports its failure.
+type InjErr struct {
+	Fn, Exec int
+	Inner    error
+}
 
-func (e *InjErr) Error() string { return fmt.Sprintf("injected error f%d#%d", e.Fn, e.Exec) }
+func (e *InjErr) Error() string {
+	if e.Inner != nil {
+		return fmt.Sprintf("injected error f%d#%d wrapping a foreign dig error: %v", e.Fn, e.Exec, e.Inner)
+	}
+	return fmt.Sprintf("injected error f%d#%d", e.Fn, e.Exec)
+}
+
+func (e *InjErr) Unwrap() error { return e.Inner }
+
+// foreignDigError: the error another container returns for an Invoke with a missing dependency.
+func foreignDigError() error {
+	sub := dig.New()
+	type absent struct{}
+	type needsAbsent struct{}
+	_ = sub.Provide(func(absent) needsAbsent { return needsAbsent{} })
+	return sub.Invoke(func(needsAbsent) {})
+}
 
 // InjPanic is the unique value a faulted execution panics with.
 type InjPanic struct{ Fn, Exec int }
@@ -52,7 +73,8 @@ func classify(err error) string {
 		return VPanicErr
 	}
 	var ie *InjErr
-	if rc := dig.RootCause(err); errors.As(rc, &ie) {
+	if errors.As(err, &ie) {
+		// (identity through RootCause is a separate rule, C13.rootcause)
 		return VUser
 	}
 	var de dig.Error
@@ -409,7 +431,7 @@ func (w *World) body(m *mat, args []reflect.Value) []reflect.Value {
 		}
 		panic(ip)
 	}
-	failed := fault == "err" && f.HasErr
+	failed := (fault == "err" || fault == "digerr") && f.HasErr
 	rec.Toks = map[int][]*Tok{}
 	outs := make([]reflect.Value, len(m.outs))
 	for i, t := range m.outs {
@@ -435,7 +457,10 @@ func (w *World) body(m *mat, args []reflect.Value) []reflect.Value {
 	}
 	if f.HasErr {
 		if failed {
-			rec.Err = &InjErr{f.ID, exec}
+			rec.Err = &InjErr{Fn: f.ID, Exec: exec}
+			if fault == "digerr" {
+				rec.Err.Inner = foreignDigError()
+			}
 			outs[len(outs)-1].Set(reflect.ValueOf(rec.Err))
 		}
 	}
